@@ -13,6 +13,7 @@
 From Coq Require Import List NArith Bool.
 From Conductor Require Import Lib.Regex Lib.RegexBisim Lib.PyRegex Lib.Str
   Gen.Generated Model.Ident Proofs.IdentSpec Proofs.IdentProofs Model.Gc Proofs.GcProofs.
+From Conductor Require Import Proofs.GenTieGc.
 Import ListNotations.
 Open Scope N_scope.
 
@@ -141,3 +142,18 @@ Example C13_nonvacuous :
 Proof.
   split; [apply wf_treeb_sound; vm_compute; reflexivity | vm_compute; reflexivity].
 Qed.
+
+(* Tie to the source, re-checked on every run: for each directory entry the scan of the model takes the
+   decision TRANSLATED from cli/gc.py main in the working tree (0 leave it, 1 explore it later,
+   2 delete it), from: is it a directory of its own (not a symlink), does its name match the
+   experiment pattern, the regular task pattern, is (identifier, timestamp) recorded *)
+Theorem C13_scan_takes_the_sources_decision : forall rec p n is_dir es stack to_delete,
+  scan rec p ((n, is_dir) :: es) stack to_delete =
+  match gen_gc_decision is_dir (py_match gc_experiment_task_regex n) (py_match gc_regular_task_regex n)
+                        (recorded rec {| ipath := p; iname := exp_name n |} (exp_ts n)) with
+  | 0 => scan rec p es stack to_delete
+  | 1 => scan rec p es ((p ++ [n]) :: stack) to_delete
+  | _ => scan rec p es stack (to_delete ++ [p ++ [n]])
+  end.
+Proof. exact scan_takes_the_sources_decision. Qed.
+Print Assumptions C13_scan_takes_the_sources_decision.
